@@ -261,6 +261,13 @@ func zero(t types.Type) Value {
 		return (*Value)(nil)
 	case *types.Array:
 		a := make(Array, t.Len())
+		if _, basic := t.Elem().Underlying().(*types.Basic); basic && t.Len() > 0 {
+			z := zero(t.Elem()) // scalars are immutable: share
+			for i := range a {
+				a[i] = z
+			}
+			return a
+		}
 		for i := range a {
 			a[i] = zero(t.Elem())
 		}
